@@ -28,6 +28,7 @@ EXPLANATION += ' R14.16(c): after leaving an f-string the scan still looks the p
 EXPLANATION += " R14.17: identifier characters are the interpreter's.  R14.18: an escaped token is skipped one character at a time where the token pattern has multi-character alternatives."
 EXPLANATION += ' R14.16: a whole-text bracket scan over the simplified text (where f-strings survive) reads the string regions; the backward bracket searches of the word finder step over strings through a quote-testing method.'
 EXPLANATION += " R14.19: in the anchored modules and the shared text utilities no source text is cut with str.splitlines() (it breaks at form feed, \x1c-\x1e, \x85, U+2028/9; rope's and the ast's line numbers count \n only)."
+EXPLANATION += " R14.21: in each string pattern every path that takes a letter for the first character of a literal, and every look-behind that reads a letter in front of it, has asserted a word start."
 EXPLANATION += " R14.20: every store into the in-string state of the logical-line scanner stands under the test that the token at hand is a quote."
 ASSUMPTIONS = ["tokenize's own Comment pattern and _all_string_prefixes() are the oracle for the token language"]
 
@@ -831,3 +832,139 @@ def check(ctx, res) -> None:
     from .common import line_model_rule
 
     line_model_rule(ctx, res, "R14.19", ('rope.base.simplify', 'rope.base.codeanalyze', 'rope.base.worder'))
+    prefix_word_start_rule(ctx, res, "R14.21")
+
+
+# ---------------------------------------------------------------------------------------------------------------------------------
+# R14.21 a string prefix starts at the start of a word
+
+_PREFIX_GETTERS = ("get_string_pattern", "get_formatted_string_pattern", "get_any_string_pattern")
+
+
+def _unanchored_prefix_paths(pattern: str) -> List[str]:
+    """The ways in which `pattern` (a string-literal pattern: optional prefix letters, then a quote) can take a LETTER for the first
+    character of a literal -- or read one in a look-behind in front of the literal -- without asserting that the letter starts a word.
+    A walk over the parse of the pattern with the state (asserted, consumed): a path ends when it consumes its first character."""
+    import re._parser as sp
+    import re._constants as sc
+
+    tree = sp.parse(pattern)
+    out: List[str] = []
+    WORD = set("abcdefghijklmnopqrstuvwxyzABCDEFGHIJKLMNOPQRSTUVWXYZ0123456789_")
+
+    def chars_of(op, av) -> Optional[Set[str]]:
+        """ASCII letters the item can consume (None: not a consuming item)"""
+        if op is sc.LITERAL:
+            return {chr(av)}
+        if op is sc.NOT_LITERAL:
+            return WORD - {chr(av)}
+        if op is sc.ANY:
+            return set(WORD)
+        if op is sc.IN:
+            neg = bool(av) and av[0][0] is sc.NEGATE
+            got: Set[str] = set()
+            for o, a in av:
+                if o is sc.LITERAL:
+                    got.add(chr(a))
+                elif o is sc.RANGE:
+                    got |= {chr(c) for c in range(a[0], min(a[1], 127) + 1)}
+                elif o is sc.CATEGORY and a is sc.CATEGORY_WORD:
+                    got |= WORD
+                elif o is sc.CATEGORY and a is sc.CATEGORY_DIGIT:
+                    got |= set("0123456789")
+                elif o is sc.CATEGORY and a in (sc.CATEGORY_NOT_SPACE,):
+                    got |= WORD
+            return (WORD - got) if neg else got
+        return None
+
+    def asserts_word_start(op, av) -> bool:
+        if op is sc.AT and av in (sc.AT_BOUNDARY, sc.AT_BEGINNING, sc.AT_BEGINNING_STRING, sc.AT_BEGINNING_LINE):
+            return True
+        if op is sc.ASSERT_NOT and av[0] == -1:  # (?<![A-Za-z0-9_]) -- no word character in front
+            items = list(av[1])
+            if len(items) == 1:
+                cs = chars_of(*items[0])
+                return cs is not None and WORD <= cs
+        return False
+
+    def walk(items, states):
+        """states: set of `asserted` flags of the paths that have not consumed yet; returns the same after the items"""
+        for op, av in items:
+            if not states:
+                return states
+            if asserts_word_start(op, av):
+                states = {True}
+                continue
+            if op in (sc.ASSERT, sc.ASSERT_NOT):
+                direction, sub = av
+                if direction == -1:
+                    # a look-behind that reads letters in front of the literal: the letters are a prefix only at a word start
+                    inner = walk(list(sub), {False})
+                    # (walk reports a letter read without the assertion)
+                continue
+            if op is sc.AT:
+                continue
+            cs = chars_of(op, av)
+            if cs is not None:
+                letters = sorted(c for c in cs if c.isalpha())
+                if letters and False in states:
+                    out.append("".join(letters)[:12])
+                states = set()  # the first character is consumed: the path is decided
+                continue
+            if op is sc.SUBPATTERN:
+                states = walk(list(av[3]), states)
+                continue
+            if op is sc.BRANCH:
+                nxt = set()
+                for alt in av[1]:
+                    nxt |= walk(list(alt), set(states))
+                states = nxt
+                continue
+            if op in (sc.MAX_REPEAT, sc.MIN_REPEAT, getattr(sc, "POSSESSIVE_REPEAT", None)):
+                lo, hi, sub = av
+                after = walk(list(sub), set(states))
+                states = (after | states) if lo == 0 else after
+                continue
+            if op is getattr(sc, "ATOMIC_GROUP", None):
+                states = walk(list(av), states)
+                continue
+            if op is sc.GROUPREF_EXISTS:
+                states = walk(list(av[1]), set(states)) | (walk(list(av[2]), set(states)) if av[2] is not None else set(states))
+                continue
+            raise AnalysisError(f"R14.21: the string pattern uses a construct this walk does not model: {op}")
+        return states
+
+    walk(list(tree), {False})
+    return out
+
+
+def prefix_word_start_rule(ctx, res, rule: str) -> None:
+    """R14.21: the tokenizer takes letters in front of a quote for a string prefix only when they are a NAME-shaped token of their own:
+    in `2 if"{x}"in y`, `a or"b"`, `elif"a"in x` the token before the quote is the keyword, and the literal is a plain string.  A pattern
+    that lets a prefix letter match -- or a look-behind read one -- in the middle of a word takes the `f` of `if` for the f-string prefix
+    (the text of a plain string is then kept in the simplified text and edited by Rename) and the `r` of `or` for the raw prefix.  So:
+    in each of the three string patterns every path that consumes a letter as the first character of the literal, and every look-behind
+    that reads a letter in front of it, has asserted a word start (`\\b`, or a negative look-behind for word characters) first."""
+    folder = fold.get(ctx)
+    n = 0
+    for getter in _PREFIX_GETTERS:
+        g = ctx.idx.need_func(f"rope.base.codeanalyze.{getter}")
+        try:
+            pat = folder.call_function(f"rope.base.codeanalyze.{getter}")
+        except fold.Unfoldable as e:
+            raise AnalysisError(f"{getter} not foldable: {e}")
+        n += 1
+        bad = _unanchored_prefix_paths(pat)
+        res.add(rule, f"{getter}|a-prefix-starts-a-word", not bad, g.where,
+                "every path that takes a letter for the start of a literal has asserted a word start" if not bad else
+                f"{getter}: the pattern takes (or reads, in a look-behind) one of the letters {sorted(set(bad))} directly in front of a quote "
+                "for a string prefix without asserting that the letter starts a word: in `2 if\"{x}\"in y` the `f` of `if`, in `a or\"b\"` the `r` of "
+                "`or` becomes the prefix of the plain string that follows the keyword -- the region starts inside the keyword, a plain string is "
+                "kept as an f-string in the simplified text, and Rename edits its text", function=g.qualname)
+    res.floor(rule, "string patterns", n, 3)
+    # the detector on fixed examples: it must see the unanchored forms and accept the anchored ones
+    if not _unanchored_prefix_paths(r'[bBfF]{,2}"x"') or not _unanchored_prefix_paths(r'(\b[rR]?[fF]|[fF][rR]?)"x"') \
+            or not _unanchored_prefix_paths(r'(?<![fF])(\b[rR])?"x"') \
+            or _unanchored_prefix_paths(r'(?:\b[bBfF]{1,2})?"x"') or _unanchored_prefix_paths(r'(?<!\b[fF])(\b[rR])?"x"') \
+            or _unanchored_prefix_paths(r'(?<![A-Za-z0-9_])[fF]?"x"'):
+        raise AnalysisError("R14.21: the prefix walk no longer tells the fixed examples apart")
